@@ -344,6 +344,15 @@ def play(spec, history, opts=''):
         return e.kind, 'tree %r history %r: %s' % (spec, history, e)
 
 
+def mailed_state(path, link):
+    """A link of the page followed without the state cookie (mailed,
+    cookies off): it is applied to the initial state.  Expanding the node at
+    `path` expands the nodes on the way to it; collapsing it opens the way
+    to it as well and leaves the node itself closed."""
+    last = len(path) + 1 if link[0] == 'e' else len(path)
+    return {path[:j] for j in range(1, last)}
+
+
 def play_(spec, history, opts=''):
     root = build(spec, opts)
     expanded = set()
@@ -361,6 +370,17 @@ def play_(spec, history, opts=''):
             new_expanded = apply_action(spec, expanded, action, mrows,
                                         leaves)
             rows, cookie, _ = render(root, cookie, click=link, opts=opts)
+        elif action[0] == 'mailed':
+            if action[1] >= len(rows) or rows[action[1]][1] is None:
+                return None
+            link = rows[action[1]][1]
+            new_expanded = mailed_state(mrows[action[1]][0], link)
+            leaves.clear()
+            rows, cookie, _ = render(root, None, click=link, opts=opts)
+        elif action[0] == 'fresh':
+            new_expanded = set()
+            leaves.clear()
+            rows, cookie, _ = render(root, None, opts=opts)
         else:
             new_expanded = apply_action(spec, expanded, action, mrows,
                                         leaves)
@@ -662,6 +682,35 @@ def machine_class():
             self.history.append(['flag', flag])
             self.rows, self.cookie, _ = render(self.root, self.cookie,
                                                flag=flag, opts=self.opts)
+            self.check()
+
+        @precondition(lambda self: self.spec is not None and
+                      'assume_children' not in self.opts)
+        @rule(i=st.integers(0, 200))
+        def mailed_link(self, i):
+            # a link of the current page followed without the cookie
+            links = [k for k, r in enumerate(self.rows) if r[1] is not None]
+            if not links:
+                return
+            k = links[i % len(links)]
+            mrows = model_rows(self.spec, self.expanded, self.opts)
+            link = self.rows[k][1]
+            self.expanded = mailed_state(mrows[k][0], link)
+            self.leaves = set()
+            self.history.append(['mailed', k])
+            self.rows, self.cookie, _ = render(self.root, None, click=link,
+                                               opts=self.opts)
+            self.check()
+
+        @precondition(lambda self: self.spec is not None)
+        @rule()
+        def fresh_visit(self):
+            # a first visit: no cookie, no click
+            self.expanded = set()
+            self.leaves = set()
+            self.history.append(['fresh'])
+            self.rows, self.cookie, _ = render(self.root, None,
+                                               opts=self.opts)
             self.check()
 
         @precondition(lambda self: self.spec is not None)
